@@ -26,29 +26,47 @@ var coreLibrary = map[string][]int{
 }
 
 // arities a single implementation function rejects/accepts: constants k in `len(args) != k` tests.
+// arityTests: the argument counts (0..8) a builtin accepts, from its arity rejections: the returns of a non-nil error
+// that depend on nothing but comparisons of len(args) with constants. nil when there is no such rejection (any count).
 func arityTests(fn *ssa.Function) []int {
-	var ks []int
 	if len(fn.Params) < 2 {
 		return nil
 	}
 	args := fn.Params[len(fn.Params)-1]
-	allInstrs(fn, func(in ssa.Instruction) {
-		bo, ok := in.(*ssa.BinOp)
-		if !ok || bo.Op != token.NEQ {
-			return
-		}
-		c, ok := bo.X.(*ssa.Call)
+	isLenArgs := func(v ssa.Value) bool {
+		c, ok := stripConv(v).(*ssa.Call)
 		if !ok {
+			return false
+		}
+		b, ok := c.Call.Value.(*ssa.Builtin)
+		return ok && b.Name() == "len" && c.Call.Args[0] == ssa.Value(args)
+	}
+	var rejections [][]intCon
+	allInstrs(fn, func(in ssa.Instruction) {
+		ret, ok := in.(*ssa.Return)
+		if !ok || len(ret.Results) == 0 || isNilConst(ret.Results[len(ret.Results)-1]) {
 			return
 		}
-		if b, ok := c.Call.Value.(*ssa.Builtin); !ok || b.Name() != "len" || c.Call.Args[0] != ssa.Value(args) {
-			return
-		}
-		if k, ok := constInt(bo.Y); ok {
-			ks = append(ks, int(k))
+		cons, pure := intConstraints(guardAtoms(ret.Block()), isLenArgs)
+		if pure && len(cons) > 0 {
+			rejections = append(rejections, cons)
 		}
 	})
-	sort.Ints(ks)
+	if len(rejections) == 0 {
+		return nil
+	}
+	var ks []int
+	for n := 0; n <= 8; n++ {
+		rejected := false
+		for _, cons := range rejections {
+			if satisfies(cons, int64(n)) {
+				rejected = true
+			}
+		}
+		if !rejected {
+			ks = append(ks, n)
+		}
+	}
 	return ks
 }
 
@@ -170,16 +188,7 @@ func checkC04(w *World) {
 			if !wsSeen && validator != "" {
 				// whitespace may be skipped by the validator itself: it must then test the four characters
 				if vf := w.member("exec", validator); vf != nil {
-					cs := map[int64]bool{}
-					allInstrs(vf, func(in3 ssa.Instruction) {
-						if bo, ok := in3.(*ssa.BinOp); ok {
-							for _, o := range []ssa.Value{bo.X, bo.Y} {
-								if k, ok := constInt(o); ok {
-									cs[k] = true
-								}
-							}
-						}
-					})
+					cs := charsTested(vf)
 					wsSeen = cs[0x20] && cs[0x9] && cs[0xD] && cs[0xA]
 				}
 			}
@@ -339,6 +348,48 @@ func (w *World) forAllFuncs(pkgKey string, visit func(*ssa.Function)) {
 	}
 }
 
+// charsTested: the character constants fn (or a repository helper it calls) compares against, plus the characters
+// of constant strings handed to the strings package (HasPrefix(s, "-"), IndexByte, ContainsRune, Trim cutsets ...).
+func charsTested(fn *ssa.Function) map[int64]bool {
+	seen := map[int64]bool{}
+	for g := range staticReach(fn, func(x *ssa.Function) bool { return inRepo(x) }) {
+		if !inRepo(g) {
+			continue
+		}
+		allInstrs(g, func(in ssa.Instruction) {
+			switch x := in.(type) {
+			case *ssa.BinOp:
+				if isCmpOp(x.Op) {
+					for _, o := range []ssa.Value{x.X, x.Y} {
+						if k, ok := constInt(o); ok {
+							seen[k] = true
+						}
+						if str, ok := constString(o); ok {
+							for _, r := range str {
+								seen[int64(r)] = true
+							}
+						}
+					}
+				}
+			case *ssa.Call:
+				if sc := staticCallee(x); sc != nil && sc.Pkg != nil && (sc.Pkg.Pkg.Path() == "strings" || sc.Pkg.Pkg.Path() == "bytes" || sc.Pkg.Pkg.Path() == "unicode") {
+					for _, a := range x.Call.Args {
+						if str, ok := constString(a); ok {
+							for _, r := range str {
+								seen[int64(r)] = true
+							}
+						}
+						if k, ok := constInt(a); ok {
+							seen[k] = true
+						}
+					}
+				}
+			}
+		})
+	}
+	return seen
+}
+
 func (w *World) validatorShape(P, name string) {
 	fn := w.member("exec", name)
 	if fn == nil {
@@ -355,17 +406,7 @@ func (w *World) validatorShape(P, name string) {
 		}
 	}
 	// character tests present: comparisons against '0', '9', '.', '-'
-	seen := map[int64]bool{}
-	allInstrs(fn, func(in ssa.Instruction) {
-		if bo, ok := in.(*ssa.BinOp); ok && isCmpOp(bo.Op) {
-			if k, ok := constInt(bo.Y); ok {
-				seen[k] = true
-			}
-			if k, ok := constInt(bo.X); ok {
-				seen[k] = true
-			}
-		}
-	})
+	seen := charsTested(fn)
 	chars := seen['0'] && seen['9'] && seen['.'] && seen['-']
 	forbidden := seen['e'] || seen['E'] || seen['+'] || seen['x'] || seen['_']
 	w.check(P, "R04.2", "number-syntax validator "+name, fn.Pos(), bad == "" && chars && !forbidden,
@@ -589,26 +630,73 @@ func (w *World) isMinPosHelper(fn *ssa.Function, r *Roles) (bool, string) {
 	loops := loopBlocks(fn)
 	found := false
 	why := "no `candidate.Pos() < best.Pos()` search loop"
+	set := ssa.Value(fn.Params[0])
+	// an element of the set: a load of set[i] (also through the range form)
+	isElem := func(v ssa.Value) bool {
+		ld, ok := v.(*ssa.UnOp)
+		if !ok || ld.Op != token.MUL {
+			return false
+		}
+		ia, ok := ld.X.(*ssa.IndexAddr)
+		return ok && ia.X == set
+	}
+	// the running best: a phi in a loop whose incoming values are elements of the set (or itself / further such phis)
+	var isBest func(v ssa.Value, seen map[ssa.Value]bool) bool
+	isBest = func(v ssa.Value, seen map[ssa.Value]bool) bool {
+		phi, ok := v.(*ssa.Phi)
+		if !ok {
+			return false
+		}
+		if seen[v] {
+			return true
+		}
+		seen[v] = true
+		for _, e := range phi.Edges {
+			if !isElem(e) && !isBest(e, seen) {
+				return false
+			}
+		}
+		return true
+	}
+	// the position of the running best: best.Pos(), or a variable that tracks it (a phi over Pos() values of elements / bests)
+	var isBestPos func(v ssa.Value, seen map[ssa.Value]bool) bool
+	isBestPos = func(v ssa.Value, seen map[ssa.Value]bool) bool {
+		if rcv, ok := isMethodCall(v, "Pos"); ok {
+			return isBest(rcv, map[ssa.Value]bool{})
+		}
+		phi, ok := v.(*ssa.Phi)
+		if !ok {
+			return false
+		}
+		if seen[v] {
+			return true
+		}
+		seen[v] = true
+		for _, e := range phi.Edges {
+			if rcv, ok := isMethodCall(e, "Pos"); ok && (isElem(rcv) || isBest(rcv, map[ssa.Value]bool{})) {
+				continue
+			}
+			if !isBestPos(e, seen) {
+				return false
+			}
+		}
+		return true
+	}
+	isElemPos := func(v ssa.Value) bool {
+		rcv, ok := isMethodCall(v, "Pos")
+		return ok && isElem(rcv)
+	}
 	allInstrs(fn, func(in ssa.Instruction) {
 		bo, ok := in.(*ssa.BinOp)
 		if !ok || !loops[bo.Block()] {
 			return
 		}
-		rx, okx := isMethodCall(bo.X, "Pos")
-		ry, oky := isMethodCall(bo.Y, "Pos")
-		if !okx || !oky {
-			return
-		}
-		// one side must be the running best (a phi), the other a set element
-		var phiSide ssa.Value
 		op := bo.Op
-		if _, isPhi := ry.(*ssa.Phi); isPhi {
-			phiSide = ry
-		} else if _, isPhi := rx.(*ssa.Phi); isPhi {
-			phiSide = rx
+		switch {
+		case isElemPos(bo.X) && isBestPos(bo.Y, map[ssa.Value]bool{}):
+		case isElemPos(bo.Y) && isBestPos(bo.X, map[ssa.Value]bool{}):
 			op = swapOp(op)
-		}
-		if phiSide == nil {
+		default:
 			return
 		}
 		// normalised: element op best ; must be <
@@ -616,9 +704,9 @@ func (w *World) isMinPosHelper(fn *ssa.Function, r *Roles) (bool, string) {
 			why = "the search keeps the candidate under `" + op.String() + "`, which does not select the minimum position"
 			return
 		}
-		// best must be returned
+		// the running best must be what is returned
 		allInstrs(fn, func(in2 ssa.Instruction) {
-			if ret, ok := in2.(*ssa.Return); ok && len(ret.Results) == 1 && ret.Results[0] == phiSide {
+			if ret, ok := in2.(*ssa.Return); ok && len(ret.Results) == 1 && isBest(ret.Results[0], map[ssa.Value]bool{}) {
 				found = true
 			}
 		})
